@@ -134,7 +134,8 @@ bool parse_op(const std::string& w0, Op& op)
            arity("as", 2, false) || arity("ma", 2, false) || arity("la", 1, true) || arity("at", 2, false) || arity("get", 2, false) ||
            arity("em", 3, false) || arity("eb", 2, false) || arity("in", 2, false) || arity("im", 2, false) || arity("pb", 2, false) ||
            arity("ir", 2, true) || arity("il", 2, true) || arity("pr", 1, true) || arity("po", 1, false) || arity("er", 2, false) ||
-           arity("de", 1, false);
+           arity("de", 1, false) || arity("ea", 3, false) || arity("ba", 2, false) || arity("ia", 2, false) ||
+           arity("pa", 2, false) || arity("sr", 4, false) || arity("ps", 3, false);
 }
 
 // call f with an initializer_list of the given (run-time) contents
@@ -300,7 +301,7 @@ struct Interp
     }
     static bool needs_copy(const Op& op)
     {
-        static const char* l[] = { "nf", "nl", "cp", "as", "la", "in", "pb", "ir", "il", "pr" };
+        static const char* l[] = { "nf", "nl", "cp", "as", "la", "in", "pb", "ir", "il", "pr", "ea", "ba", "ia", "pa", "sr", "ps" };
         for (auto n : l) if (op.name == n) return true;
         return false;
     }
@@ -316,7 +317,7 @@ struct Interp
     // begin() + pos is only a valid pointer for pos <= capacity (checked after the moved-from rule)
     bool bad_position(const Op& op)
     {
-        if (op.name == "em" || op.name == "ir" || op.name == "il" || op.name == "er")
+        if (op.name == "em" || op.name == "ir" || op.name == "il" || op.name == "er" || op.name == "ea" || op.name == "sr")
         {
             std::size_t i = op.a[0];
             if (pool[i] && (std::size_t)op.a[1] > pool[i]->capacity()) return true;
@@ -367,7 +368,7 @@ struct Interp
             std::size_t j = op.a[1];
             if (!pool[j]) return "S";
         }
-        if (n == "ma" && i == op.a[1]) return "S";
+        // ma,i,i is v = std::move(v): executed; afterwards v is compared like any other moved-from object
         if (!pool[i]) return "S";
         FV& v = *pool[i];
         if constexpr (COPY)
@@ -388,6 +389,27 @@ struct Interp
                 arm();
                 if (n == "ir") v.insert(v.begin() + op.a[1], src.begin(), src.end());
                 else v.push_back(src.begin(), src.end());
+                return ok;
+            }
+            // arguments that alias the container itself (only live elements / live sub-ranges may be named)
+            if (n == "ea" || n == "ba" || n == "ia" || n == "pa")
+            {
+                std::size_t k = (n == "ea") ? op.a[2] : op.a[1];
+                if (k >= v.size()) return "S";
+                arm();
+                if (n == "ea") { v.emplace(v.begin() + op.a[1], v[k]); return ok; }
+                if (n == "ba") { auto r = v.emplace_back(v[k]); return r + 1 == v.size() ? ok : "D!ret"; }
+                if (n == "ia") { auto r = v.insert(static_cast<const E&>(v[k])); return r + 1 == v.size() ? ok : "D!ret"; }
+                auto r = v.push_back(v[k]);
+                return r + 1 == v.size() ? ok : "D!ret";
+            }
+            if (n == "sr" || n == "ps")
+            {
+                std::size_t a = (n == "sr") ? op.a[2] : op.a[1], b = (n == "sr") ? op.a[3] : op.a[2];
+                if (!(a <= b && b <= v.size())) return "S";
+                arm();
+                if (n == "sr") v.insert(v.begin() + op.a[1], v.begin() + a, v.begin() + b);
+                else v.push_back(v.begin() + a, v.begin() + b);
                 return ok;
             }
             if (n == "il")
@@ -428,7 +450,7 @@ struct Interp
             Track::countdown() = -1;
             const std::string& n = op.name;
             std::size_t i = op.a[0];
-            if ((n == "mv" || n == "ma") && oc[0] == 'D') { mf[op.a[1]] = true; mf[i] = false; }
+            if ((n == "mv" || n == "ma") && oc[0] == 'D') { mf[i] = false; mf[op.a[1]] = true; }
             else if ((n == "n" || n == "nf" || n == "nl" || n == "cp" || n == "de") && oc != "S") mf[i] = false;
             else if ((n == "as" || n == "la") && oc[0] == 'D') mf[i] = false;
             out += oc;
